@@ -472,7 +472,7 @@ def run(ctx: Ctx) -> None:
     ctx.correspond('dyn_expression', IMPORTS, 'expr * rty', 'fun c => existsb (fun m => covers m (snd c)) (dyn (%s) (fst c))' % R, dcases, draw, prelude, shard=150)
 
     # ---- (c) oracle: inferred declaration types vs run-time types of whole programs ----
-    N = ctx.n(40, 2500) * scale
+    N = ctx.n(40, 600) * scale
     programs = [progen.Program(src, [(name, [args], 'int')]) for name, src, args in WITNESSES] + [progen.Program(GENERICS, [('g_main', [(3,)], 'int')])]
     for i in range(N + len(programs)):
         p = programs[i] if i < len(programs) else progen.gen_program(rnd, rnd.randint(1, 3))
